@@ -103,12 +103,60 @@ def apply_patch_py(data, patch, ents):
         off, ln = ents[int(t[1])]
         b[off + ln - 12:off + ln] = bytes(12)
         b[off + int(t[2])] = int(t[3])
+    elif t[0] == "settype":
+        off, ln = ents[int(t[1])]
+        b[off + ln - 16:off + ln - 12] = int(t[2]).to_bytes(4, "big")
     elif t[0] == "cnt":
         b[n - 20:n - 12] = int(t[1]).to_bytes(8, "big")
     elif t[0] == "zero12i":
         b[n - 12:n] = bytes(12)
         b[int(t[1])] = int(t[2])
     return bytes(b)
+
+
+BLOCK_FIELDS = (("type", 16, 12), ("cktype", 12, 8), ("cksum", 8, 0))
+
+
+def changed_fields(orig, patched, ents, b):
+    """Which parts of block b differ between the pristine and the patched file: any of
+    payload / type / cktype / cksum, or ['truncated']."""
+    off, ln = ents[b]
+    if len(patched) < off + ln:
+        return ["truncated"]
+    o, p = orig[off:off + ln], patched[off:off + ln]
+    out = []
+    if o[:ln - 16] != p[:ln - 16]:
+        out.append("payload")
+    for name, a, z in BLOCK_FIELDS:
+        if o[ln - a:ln - z] != p[ln - a:ln - z]:
+            out.append(name)
+    return out
+
+
+def changed_offsets(orig, patched):
+    n = min(len(orig), len(patched))
+    return [i for i in range(n) if orig[i] != patched[i]] + list(range(n, max(len(orig), len(patched))))
+
+
+def declares_no_checksum(patched, ents, b):
+    """The mechanism of `trailer:cktype-overwrite`, judged on the bytes the reader sees: the block's
+    own trailer says checksum type None with checksum 0 (so verify_checksum compares 0 with 0)."""
+    off, ln = ents[b]
+    if len(patched) < off + ln:
+        return False
+    return patched[off + ln - 12:off + ln - 8] == bytes(4) and patched[off + ln - 8:off + ln] == bytes(8)
+
+
+def idx_footer_changes(orig, patched):
+    """Fields of the index file that differ: entries / magic / count / cktype / cksum / truncated."""
+    if len(patched) != len(orig):
+        return ["truncated"]
+    n = len(orig)
+    out = []
+    for name, a, z in (("entries", n, 24), ("magic", 24, 20), ("count", 20, 12), ("cktype", 12, 8), ("cksum", 8, 0)):
+        if orig[n - a:n - z] != patched[n - a:n - z]:
+            out.append(name)
+    return out
 
 
 def col_oracle(t, outs):
@@ -137,12 +185,16 @@ def col_oracle(t, outs):
             if o.startswith("ok:"):
                 _, ty, payload = o.split(":")
                 if payload != pristine or int(ty) != ptype:
-                    if patch.startswith("zero12"):
-                        res.append((SIG_CKTYPE, "altered block accepted after overwriting checksum type/checksum with None/0"))
+                    patched = apply_patch_py(data, patch, ents)
+                    fields = changed_fields(data, patched, ents, b)
+                    what = ("block %d (file offsets %s, field(s) %s, patch %s): read returned type %s payload %s, written type %d payload %s"
+                            % (b, changed_offsets(data, patched)[:8], "+".join(fields), patch, ty, payload[:64], ptype, pristine[:64]))
+                    if declares_no_checksum(patched, ents, b):
+                        res.append((SIG_CKTYPE, "the block's own trailer now says checksum type None / checksum 0, so nothing is verified: " + what))
                     elif b in failed_since_fresh:
-                        res.append((SIG_CACHE, "block %d: an earlier read failed with a checksum error, this read returns the altered payload" % b))
+                        res.append((SIG_CACHE, "an earlier read of this block failed with a checksum error, this read returns the altered block: " + what))
                     else:
-                        res.append((None, "block %d read returned altered payload (patch %s)" % (b, patch)))
+                        res.append(("!" + "+".join(fields), what))
             elif o == "err:checksum":
                 failed_since_fresh.add(b)
             elif not o.startswith("err:"):
@@ -157,16 +209,20 @@ def idx_oracle(t, out):
     patch = t[2]
     if patch == "none" or apply_patch_py(data, patch, []) == data:
         return [] if out == "ok:%d" % orig_count else [(None, "pristine index does not open: %s" % out)]
+    patched_idx = apply_patch_py(data, patch, [])
+    fields = idx_footer_changes(data, patched_idx)
+    only_count = fields == ["count"]
+    footer_none = len(patched_idx) >= 24 and patched_idx[-12:] == bytes(12)
     if out == "abort":
-        if count_field_patch(patch, n):
+        if only_count:
             return [(SIG_COUNT, "unverified footer count makes ColumnIndex::from_bytes abort the process (Vec::with_capacity(count))")]
         return [(None, "process abort on %s" % patch)]
     if out.startswith("ok:"):
-        if count_field_patch(patch, n):
+        if only_count:
             return [(SIG_COUNT, "index with overwritten block count opens without error (%s blocks instead of %d)" % (out[3:], orig_count))]
-        if patch.startswith("zero12i"):
-            return [(SIG_IDX_CKTYPE, "altered index accepted after overwriting footer checksum type/checksum with None/0")]
-        return [(None, "altered index file opens: %s after %s" % (out, patch))]
+        if footer_none:
+            return [(SIG_IDX_CKTYPE, "altered index accepted: its own footer now says checksum type None / checksum 0 (changed: %s)" % "+".join(fields))]
+        return [("!" + "+".join(fields), "altered index file (field(s) %s, offsets %s) opens: %s after %s" % ("+".join(fields), changed_offsets(data, patched_idx)[:8], out, patch))]
     return []
 
 
@@ -190,7 +246,7 @@ def affected_block(patch, ents, flen):
             if off <= p < off + ln:
                 return b
         return None
-    if t[0] in ("ck0", "zero12"):
+    if t[0] in ("ck0", "zero12", "settype"):
         return int(t[1])
     if t[0] == "trunc":
         nl = int(t[1])
@@ -201,14 +257,31 @@ def affected_block(patch, ents, flen):
     return None
 
 
+def defer_corr(pending, sig, what, replay, found):
+    """Correspondence disagreements are collected per signature and reported once, preferring a
+    case on which the property itself fails on the implementation (a concrete failing input)."""
+    cur = pending.get(sig)
+    if cur is None or (found and not cur[2]):
+        pending[sig] = (what, replay, found)
+
+
+def flush_corr(ck, pending):
+    for sig, (what, replay, found) in pending.items():
+        ck.report(sig, what, replay=replay, found_input=found)
+
+
 def disk_decide(ck, layouts, cases, model_answers, cov):
     """-> counters; reports violations / known findings."""
     mvi = {"compared": 0, "disagree": 0}
     ivo = {"compared": 0, "disagree": 0, "known": 0}
     dist = Counter()
+    pending = {}
     for case, manswer in zip(cases, model_answers):
         name, patch, res = case["file"], case["patch"], case["res"]
         kind = "col" if name.endswith(".col") else "idx"
+        if res.startswith("harness-panic"):
+            ck.report("run:disk-case", "the harness panicked on %s %s: %s" % (name, patch, res[:200]), replay={"file": name, "patch": patch, "res": res}, found_input=False)
+            continue
         r = parse_res(res)
         lay = layouts[name]
         flen = lay["len"]
@@ -217,13 +290,26 @@ def disk_decide(ck, layouts, cases, model_answers, cov):
                   "diff" if "DIFF" in [r.get(k) for k in ("q1", "q2", "q3", "r1")] else
                   "err" if str(r.get("q1", "")).startswith("err") else "same")
         dist["%s/%s -> %s" % (kind, pk, coarse)] += 1
-        replay = {"file": name, "patch": patch, "observed": res[:1500], "model": manswer,
+        orig_bytes = bytes.fromhex(lay["hex"])
+        patched_bytes = apply_patch_py(orig_bytes, patch, lay.get("entries", []))
+        if kind == "col":
+            ab = affected_block(patch, lay["entries"], flen)
+            fields = changed_fields(orig_bytes, patched_bytes, lay["entries"], ab) if ab is not None else []
+            no_ck = ab is not None and declares_no_checksum(patched_bytes, lay["entries"], ab)
+        else:
+            ab = None
+            fields = idx_footer_changes(orig_bytes, patched_bytes)
+            no_ck = len(patched_bytes) >= 24 and patched_bytes[-12:] == bytes(12)
+        only_count = kind == "idx" and fields == ["count"]
+        replay = {"file": name, "patch": patch, "file_offsets_changed": changed_offsets(orig_bytes, patched_bytes)[:16],
+                  "fields_changed": fields, "block": ab, "rows_before": layouts.get("__want_t__", ""),
+                  "observed (rows after = DIFF:...)": res[:3000], "model": manswer,
                   "how": "c18 disk: tables t(a int, b varchar) 30 rows and u(k int); default_for_cli options with target_block_size 64; patch the file; open; select a,b from t x3; select k from u; reopen; select again"}
         # ---- oracle: the property itself
         ivo["compared"] += 1
         viol = []
         if r.get("open") == "abort":
-            viol.append((SIG_COUNT if kind == "idx" and count_field_patch(patch, flen) else None,
+            viol.append((SIG_COUNT if only_count else None,
                          "opening the database aborts the process (unverified footer count -> Vec::with_capacity)"))
         elif r.get("open") == "panic" or r.get("reopen") == "panic":
             viol.append((SIG_OPEN if kind == "idx" else None,
@@ -231,17 +317,18 @@ def disk_decide(ck, layouts, cases, model_answers, cov):
         else:
             for q in ("q1", "q2", "q3", "r1"):
                 if r.get(q) == "DIFF":
-                    if kind == "col" and pk == "zero12":
+                    # attribution by mechanism, judged on the bytes the reader sees, never by patch kind
+                    if kind == "col" and no_ck:
                         sig = SIG_CKTYPE
                     elif kind == "col" and q in ("q2", "q3") and r.get("q1") == "err:checksum":
                         sig = SIG_CACHE
-                    elif kind == "idx" and count_field_patch(patch, flen):
+                    elif only_count:
                         sig = SIG_COUNT
-                    elif kind == "idx" and pk == "zero12i":
+                    elif kind == "idx" and no_ck:
                         sig = SIG_IDX_CKTYPE
                     else:
-                        sig = None
-                    viol.append((sig, "%s returns Ok with different rows" % q))
+                        sig = "!" + "+".join(fields)
+                    viol.append((sig, "%s returns Ok with different rows (field(s) changed: %s, file offsets %s)" % (q, "+".join(fields), changed_offsets(orig_bytes, patched_bytes)[:8])))
                 elif r.get(q) not in ("same",) and not str(r.get(q, "")).startswith("err") and r.get(q) != "panic":
                     viol.append((None, "%s: unexpected outcome %s" % (q, r.get(q))))
             for q in ("u", "ru"):
@@ -250,9 +337,11 @@ def disk_decide(ck, layouts, cases, model_answers, cov):
         if viol:
             ivo["disagree"] += 1
         for sig, what in viol:
-            if sig:
+            if sig and not sig.startswith("!"):
                 if ck.report(sig, "on-disk %s, %s: %s" % (kind, patch, what), replay=replay) == "known":
                     ivo["known"] += 1
+            elif sig:
+                ck.report("disk:%s/accepted-altered-%s" % (kind, sig[1:]), "on-disk %s %s: %s" % (name, patch, what), replay=replay)
             else:
                 ck.report("disk:%s/%s/%s" % (kind, pk, coarse), "on-disk %s %s: %s" % (name, patch, what), replay=replay)
         # ---- model prediction
@@ -294,8 +383,9 @@ def disk_decide(ck, layouts, cases, model_answers, cov):
                 ok = False
         if not ok:
             mvi["disagree"] += 1
-            ck.report("corr:disk/%s/%s" % (kind, pk), "model prediction and on-disk outcome disagree for %s %s: model %s, observed %s" % (name, patch, manswer[:200], res[:300]),
-                      replay=replay, found_input=bool(viol and any(s is None for s, _ in viol)))
+            defer_corr(pending, "corr:disk/%s/%s" % (kind, pk), "model prediction and on-disk outcome disagree for %s %s: model %s, observed %s" % (name, patch, manswer[:200], res[:300]),
+                       replay, bool(viol and any(s is None or s.startswith("!") for s, _ in viol)))
+    flush_corr(ck, pending)
     cov.setdefault("distribution", {})["disk_cases(kind/patch -> outcome)"] = dict(sorted(dist.items()))
     return mvi, ivo
 
@@ -320,7 +410,9 @@ def compact_decide(ck, cases, manswers, cov):
         viol = []
         for q in ("q1", "q2", "r1", "r2"):
             if r.get(q) == "DIFF":
-                if pk == "zero12":
+                cents = [tuple(int(x) for x in e.split(",")) for e in case["entries"].split(";")]
+                cdata = bytes.fromhex(case["hex"])
+                if declares_no_checksum(apply_patch_py(cdata, case["patch"], cents), cents, case["block"]):
                     sig = SIG_CKTYPE
                 elif q in ("r1", "r2") and newdir:
                     sig = SIG_LAUNDER
@@ -397,6 +489,7 @@ def run(ck):
     kinds = Counter()
     outcomes = Counter()
     distinct = set()
+    pending_col = {}
     for k, q in enumerate(reqs):
         a = impl[k].strip() if k < len(impl) else ""
         m = model[k].strip() if k < len(model) else ""
@@ -426,9 +519,11 @@ def run(ck):
                 ivo["disagree"] += 1
             for sig, what in v:
                 rp = {"request": q, "impl": a, "model": m}
-                if sig:
+                if sig and not sig.startswith("!"):
                     if ck.report(sig, "index file, %s: %s" % (t[2], what), replay=rp) == "known":
                         ivo["known"] += 1
+                elif sig:
+                    ck.report("oracle:idx/accepted-altered-" + sig[1:], what, replay=rp)
                 else:
                     ck.report("oracle:idx/" + pk, what, replay=rp)
         elif t[0] == "col":
@@ -445,25 +540,29 @@ def run(ck):
                 distinct.add(q)
             if vm:
                 mvo["disagree"] += 1
-                if all(s for s, _ in vm):
+                if all(s and not s.startswith("!") for s, _ in vm):
                     mvo["known"] += 1
             if v:
                 ivo["disagree"] += 1
             for sig, what in v:
-                rp = {"request": q[:6000], "impl": a[:3000], "model": m[:3000]}
-                if sig:
+                rp = {"request": q[:6000], "impl": a[:3000], "model": m[:3000], "what": what}
+                if sig and not sig.startswith("!"):
                     if ck.report(sig, "column level, %s, seq %s: %s" % (t[3], " ".join(t[4:]), what), replay=rp) == "known":
                         ivo["known"] += 1
+                elif sig:
+                    ck.report("oracle:col/accepted-altered-" + sig[1:], what, replay=rp)
                 else:
                     ck.report("oracle:col/" + pk, what, replay=rp)
         else:
             same = a == m
         if not same:
             mvi["disagree"] += 1
-            unexplained = any(s is None for s, _ in (col_oracle(t, a.split(" ")) if t[0] == "col" else idx_oracle(t, a) if t[0] == "idx" else []))
-            ck.report("corr:%s/%s" % (t[0], (t[3] if t[0] == "col" else t[2] if t[0] == "idx" else "crc").split(":")[0]),
-                      "model and implementation disagree on %s: impl %s model %s" % (q[:120], a[:160], m[:160]),
-                      replay={"request": q[:6000], "impl": a[:3000], "model": m[:3000]}, found_input=unexplained)
+            ov = col_oracle(t, a.split(" ")) if t[0] == "col" else idx_oracle(t, a) if t[0] == "idx" else []
+            unexplained = any(s is None or s.startswith("!") for s, _ in ov)
+            defer_corr(pending_col, "corr:%s/%s" % (t[0], (t[3] if t[0] == "col" else t[2] if t[0] == "idx" else "crc").split(":")[0]),
+                       "model and implementation disagree on %s: impl %s model %s" % (q[:120], a[:160], m[:160]),
+                       {"request": q[:6000], "impl": a[:3000], "model": m[:3000], "oracle_on_impl": [w for _, w in ov][:3]}, unexplained)
+    flush_corr(ck, pending_col)
     # ---- disk level
     ck.log("disk level: %d corruption cases on an on-disk database" % n_disk)
     rc3, dout = vlib.sh([vlib.harness_bin("c18"), "disk", ck.work, str(n_disk)], timeout=3000)
@@ -475,11 +574,13 @@ def run(ck):
             d = json.loads(line)
         except ValueError:
             continue
-        if "layout" in d:
+        if "want_t" in d:
+            layouts["__want_t__"] = d["want_t"]
+        elif "layout" in d:
             layouts[d["layout"]] = d
         elif "file" in d:
             cases.append(d)
-    for name, lay in layouts.items():
+    for name, lay in list(layouts.items()):
         if name.endswith(".idx"):
             layouts[name.replace(".idx", ".col")]["entries"] = [tuple(int(x) for x in e.split(",")) for e in lay["entries"].split(";")]
     if rc3 != 0 or not cases:
@@ -520,7 +621,7 @@ def run(ck):
     for name, st in bad.items():
         ck.report("thm:" + name, "theorem %s is not discharged (%s)" % (name, st.get("status")), replay={"theorem": name, "status": st}, found_input=False)
     cov.setdefault("distribution", {}).update({"column_level_requests": dict(kinds), "column_level_outcomes": dict(sorted(outcomes.items())),
-                                                "disk_files": {n: l["len"] for n, l in layouts.items()}})
+                                                "disk_files": {n: l["len"] for n, l in layouts.items() if isinstance(l, dict)}})
     cov.update({
         "evaluations": len(reqs) + len(cases) + len(ccases),
         "distinct_nontrivial": len(distinct) + len({(c["file"], c["patch"]) for c in cases}),
